@@ -239,7 +239,9 @@ def handle (case impl : List String) : Verdict :=
     let nbranch := (impl.getD 1 "").toNat?.getD 0
     let n := (impl.getD 4 "").toNat?.getD 0
     let v := Verdict.ok ["sw", fn, be]
-    let v := v.withDiff (impl.length != 5 || n == 0) s!"unreadable or empty sweep {impl}"
+    -- a block that lies wholly inside the excluded neighbourhood of a pole of tan compares nothing
+    if impl.length == 5 && n == 0 then Verdict.mkAmb ["sw", fn, be, "nothing-comparable"] else
+    let v := v.withDiff (impl.length != 5) s!"unreadable sweep {impl}"
     let v := v.withSpec (nex > 0) (approxKey be fn) s!"{nex} of {n} points exceed {bound}; max error {impl.getD 2 ""} at {impl.getD 3 ""}"
     v.withSpec (nbranch > 0) (be ++ "-atan2-branch-cut") s!"{nbranch} of {n} points a whole turn away from std"
   | ["rsq", be, a] =>
